@@ -228,14 +228,20 @@ def work(item):
             elif kind in ('convert', 'aux'):
                 src = os.path.join(tmp, 'in%d.nw' % i)
                 key = rng.choice(['sto-3g', '6-31g', 'cc-pvdz', 'def2-svp'])
-                open(src, 'w').write(bse.get_basis(key, fmt='nwchem', elements=[1, 6, 8], header=False))
-                dst = os.path.join(tmp, 'out%d.gbs' % i)
+                # sometimes in another readable format, sometimes with a byte-order mark in front (the API reads utf-8-sig) and explicit formats
+                sfmt, sext = rng.choice([('nwchem', '.nw'), ('nwchem', '.nw'), ('gaussian94', '.gbs'), ('turbomole', '.tm')])
+                src = os.path.join(tmp, 'in%d%s' % (i, sext))
+                text_in = bse.get_basis(key, fmt=sfmt, elements=[1, 6, 8], header=rng.random() < 0.5)
+                bom = rng.random() < 0.35
+                open(src, 'w', encoding='utf-8-sig' if bom else 'utf-8').write(text_in)
+                dext = rng.choice(['gbs', 'nw', 'tm'])
+                dst = os.path.join(tmp, 'out%d.%s' % (i, dext))
                 from basis_set_exchange import convert, readers, writers, manip
                 if kind == 'convert':
                     mg = rng.random() < 0.5
                     line = ['convert-basis', src, dst] + (['--make-gen'] if mg else [])
                     got = run_cli(line)
-                    ref = os.path.join(tmp, 'ref%d.gbs' % i)
+                    ref = os.path.join(tmp, 'ref%d.%s' % (i, dext))
                     convert.convert_formatted_basis_file(src, ref, make_gen=mg)
                     want = ('ok', open(ref).read())
                 else:
@@ -247,7 +253,7 @@ def work(item):
                         ob['revision_description'] = ''
                         ob['version'] = ''
                         ab = (manip.autoaux_basis if which == 'autoaux-basis' else manip.autoabs_basis)(ob)
-                    ref = os.path.join(tmp, 'ref%d.gbs' % i)
+                    ref = os.path.join(tmp, 'ref%d.%s' % (i, dext))
                     writers.write_formatted_basis_file(ab, ref)
                     want = ('ok', open(ref).read())
                 got = (got[0], open(dst).read() if got[0] == 'ok' and os.path.isfile(dst) else got[1], got[2])
